@@ -4,6 +4,7 @@ import Ogen.JsonPointer_driver
 
 import Ogen.RegexConvert_feasibility
 import Ogen.JsonEqualDriver
+import Ogen.IntRoundTrip_proof
 
 /-! Line-protocol driver over all executable models: `<model> <payload>` per line, one
     canonical output line per input line. Core-only (no Mathlib) so it links natively. -/
@@ -31,6 +32,10 @@ def dispatch (line : String) : String :=
     | "ptr" => Ptr.runLine payload
 
     | "conv" => convLine payload
+    | "ifmt" => IntRT.ifmtLine payload
+    | "ufmt" => IntRT.ufmtLine payload
+    | "iparse" => IntRT.iparseLine payload
+    | "bparse" => IntRT.bparseLine payload
     | "jeq" => JEqDrv.runLine payload
     | "enum" => JEqDrv.enumLine payload
     | _ => "bad-model"
